@@ -10,5 +10,11 @@ def handle (fn : String) (args : List Json) : String :=
   | "compact" => match args with
     | [a0] => (do let x0 ← Wire.decStr a0; pure (Wire.respondWith Wire.encStr (Gen.fi_hetu.compact x0)) : Option String).getD "badargs"
     | _ => "badargs"
+  | "is_valid" => match args with
+    | [a0, a1] => (do let x0 ← Wire.decStr a0; let x1 ← Wire.decBool a1; pure (Wire.respondWith Wire.encBool (Gen.fi_hetu.is_valid x0 x1)) : Option String).getD "badargs"
+    | _ => "badargs"
+  | "validate" => match args with
+    | [a0, a1] => (do let x0 ← Wire.decStr a0; let x1 ← Wire.decBool a1; pure (Wire.respondWith Wire.encStr (Gen.fi_hetu.validate x0 x1)) : Option String).getD "badargs"
+    | _ => "badargs"
   | _ => "nofunc"
 end Driver.D_fi_hetu
